@@ -43,6 +43,10 @@ def repo(name):
 # ------------------------------------------------------------------------------------------
 # wall-clock limits for implementation calls (pure-Python loops: SIGALRM is enough)
 # ------------------------------------------------------------------------------------------
+class StopRun(BaseException):
+    """enough violations collected: stop exploring, go to the verdict"""
+
+
 class Timeout(BaseException):
     """BaseException on purpose: `except Exception` in the code under test must not eat it."""
 
@@ -193,6 +197,8 @@ class Ctx:
                                     "detail": jsonable(detail), "signature": key})
         else:
             self.count("violations_not_stored")
+        if len(self.violations) >= 25 and not getattr(self, "no_stop", False):
+            raise StopRun()
         return True
 
     def disagree(self, suite, inp, impl, model):
